@@ -121,7 +121,10 @@ def _rule_memo(check, repo: Repo, mod) -> None:
                                                              (isinstance(val, ast.Call) and (call_name(val) or "") in ("dict", "list", "set", "OrderedDict", "defaultdict"))):
             tops[tg.id] = st
     n_fn = 0
+    from ..core.repo import is_referenced
     for fn in [n for n in ast.walk(mod.tree) if isinstance(n, (ast.FunctionDef, ast.AsyncFunctionDef))]:
+        if not is_referenced(repo, fn):
+            continue  # an unused private helper: no registration result depends on it
         n_fn += 1
         params = set(func_params(fn))
         for n in ast.walk(fn):
